@@ -176,7 +176,7 @@ def rule_space(ctx, rule):
         key = "no-raw-space/unquote/return-when[%s]" % condtxt
         ctx.ob(rule, key, not bad,
                "quote.unquote returns its argument without the ' ' -> '%%20' rewrite on the path [%s]" % condtxt,
-               q.site(r.node), witness="a b" if "NotIn" in condtxt or "not in" in condtxt.lower() else None,
+               q.site(r.node), witness="a b",
                sample="return path [%s] -> %s" % (condtxt, P.show(t, maxdepth=5)))
 
 
@@ -261,15 +261,9 @@ def rule_quote_regexes(ctx, rule):
                 if not pol:
                     continue
                 for x in P.subterms(c):
-                    g = None
-                    if x[0] == "method" and x[1] in ("match", "fullmatch") and x[2][0] == "global" and x[3] and x[3][0] == t:
-                        g, mode = x[2][1], x[1]
-                    elif x[0] == "call" and x[1].endswith((".match", ".fullmatch")) and x[2] and x[2][0] == t:
-                        g, mode = x[1].rpartition(".")[0], x[1].rpartition(".")[2]
-                    elif x[0] == "call" and x[1] in ("re.match", "re.fullmatch") and len(x[2]) >= 2 and x[2][0][0] == "global" and x[2][1] == t:
-                        g, mode = x[2][0][1], x[1][3:]
-                    if g:
-                        tests.append((g, mode))
+                    op = F.regex_op(x)
+                    if op is not None and op[1] in ("match", "fullmatch") and op[2] and op[2][0] == t:
+                        tests.append((op[0], op[1]))
             condtxt = " and ".join(("" if pol else "not ") + P.show(c, maxdepth=3) for c, pol in r.conds if c[0] != "in-loop")
             if not tests:
                 ctx.ob(rule, "verbatim-only-when-escape", False,
@@ -368,15 +362,11 @@ def rule_upper_quoted(ctx, rule):
     ex = P.Extractor(repo, atomic=set())
     t = ex.result_term(ex.function(q.func("upper_quoted")))
     ctx.fn("ural.quote.upper_quoted", "ural.quote.upper_match")
-    ok = (
-        t[0] == "method" and t[1] == "sub" and t[2] == ("global", "ural.quote.LOWERCASE_QUOTED_RE")
-        and len(t[3]) == 2 and t[3][1] == ("param", "string")
-    ) or (
-        t[0] == "call" and t[1] == "re.sub" and t[2][0] == ("global", "ural.quote.LOWERCASE_QUOTED_RE") and t[2][2] == ("param", "string")
-    )
+    op = F.regex_op(t)
+    ok = op is not None and op[0] == "ural.quote.LOWERCASE_QUOTED_RE" and op[1] == "sub" and len(op[2]) == 2 and op[2][1] == ("param", "string")
     ctx.ob(rule, "upper_quoted-substitutes", ok, "upper_quoted is not LOWERCASE_QUOTED_RE.sub(callback, string): %s" % P.show(t, maxdepth=4), q.site(q.func("upper_quoted").node))
     if ok:
-        cb = t[3][0] if t[0] == "method" else t[2][1]
+        cb = op[2][0]
         cbok = False
         if cb[0] == "funcref":
             mod, _, name = cb[1].rpartition(".")
@@ -405,13 +395,10 @@ def rule_c1(ctx, rule, sets):
     is_decode = lambda x: x[0] == "method" and x[1] == "decode"
 
     def covers_c1(x):
-        g = None
-        if x[0] == "method" and x[1] == "sub" and x[2][0] == "global":
-            g = x[2][1]
-        elif x[0] == "call" and x[1] == "re.sub" and x[2] and x[2][0][0] == "global":
-            g = x[2][0][1]
-        if g is None:
+        op = F.regex_op(x)
+        if op is None or op[1] != "sub":
             return False
+        g = op[0]
         mod, _, name = g.rpartition(".")
         try:
             rx = repo.const(repo.mod(mod), name)
